@@ -83,6 +83,14 @@ def run(tier="quick"):
                 obs.append(core.ob("verus|memory.rs::%s" % f, props, "undecided", "verus", "verus_memory",
                                    detail="Verus rejected the unit before verification (unsupported construct?): " + msg))
             return obs, info
+        hard = [e for e in errs if not V.is_verification_failure(e)]
+        if hard:
+            # tool-level diagnostics (unsupported construct, rustc errors in injected text): nothing was decided
+            msg = "; ".join("%s @%s" % (e["message"][:200], e["line"]) for e in hard[:5])
+            for f, props in FUNC_PROPS.items():
+                obs.append(core.ob("verus|memory.rs::%s" % f, props, "undecided", "verus", "verus_memory",
+                                   detail="Verus reported tool-level errors (unsupported construct / text that no longer compiles): " + msg))
+            return obs, info
         # map errors to functions
         ranges = [(m["unit_line"], m["unit_line"] + m["n_lines"], m["function"], m["repo_line"]) for m in meta["linemap"]]
         per_fn = {}
